@@ -27,6 +27,8 @@ var t0 = time.Unix(1700000000, 0)
 
 // txUniverse: a fixed family of transactions derived from the history seed.  tx i spends either an outside
 // outpoint or outputs of earlier transactions; `ours[j]` marks outputs that the history credits to the wallet.
+// txUniverseSize random transactions, followed by the conflict triple (conflictTriple: a parent and two
+// transactions that double-spend its wallet output).
 type txInfo struct {
 	rec      *wtxmgr.TxRecord
 	ours     []bool
@@ -116,7 +118,46 @@ func newTxUniverse(seed int64) []*txInfo {
 			}
 		}
 	}
-	return txs
+	return append(txs, conflictTriple(seed)...)
+}
+
+// conflictTriple: three more transactions appended to every universe WITHOUT consuming the universe rng (the first
+// txUniverseSize transactions are what they were): P pays the wallet one output; A and B both spend P:0 (a double
+// spend / replacement pair) and each pays the wallet a change output.  The store accepts both as unmined at once,
+// so the unmined-inputs record of P:0 then names two spenders, and removing/confirming one of them REWRITES that
+// record (the Put branch of deleteRawUnminedInput) instead of deleting it.
+const (
+	txConflictParent = txUniverseSize
+	txConflictA      = txUniverseSize + 1
+	txConflictB      = txUniverseSize + 2
+)
+
+func conflictTriple(seed int64) []*txInfo {
+	mk := func(i int, m *wire.MsgTx, ours []bool) *txInfo {
+		rec, err := wtxmgr.NewTxRecordFromMsgTx(m, t0.Add(time.Duration(i)*time.Second))
+		if err != nil {
+			panic(err)
+		}
+		return &txInfo{rec: rec, ours: ours}
+	}
+	outside := func(tag string) *wire.OutPoint {
+		var h chainhash.Hash
+		copy(h[:], fmt.Sprintf("outside-%d-%s", seed, tag))
+		return wire.NewOutPoint(&h, 0)
+	}
+	p := wire.NewMsgTx(2)
+	p.AddTxIn(wire.NewTxIn(outside("cp"), nil, nil))
+	p.AddTxOut(wire.NewTxOut(70000, []byte{0x51, byte(txConflictParent), 0}))
+	pi := mk(txConflictParent, p, []bool{true})
+	a := wire.NewMsgTx(2)
+	a.AddTxIn(wire.NewTxIn(wire.NewOutPoint(&pi.rec.Hash, 0), nil, nil))
+	a.AddTxOut(wire.NewTxOut(31000, []byte{0x51, byte(txConflictA), 0}))
+	b := wire.NewMsgTx(2)
+	b.AddTxIn(wire.NewTxIn(wire.NewOutPoint(&pi.rec.Hash, 0), nil, nil))
+	b.AddTxIn(wire.NewTxIn(outside("cb"), nil, nil))
+	b.AddTxOut(wire.NewTxOut(24000, []byte{0x51, byte(txConflictB), 0}))
+	b.AddTxOut(wire.NewTxOut(9000, []byte{0x51, byte(txConflictB), 1}))
+	return []*txInfo{pi, mk(txConflictA, a, []bool{true}), mk(txConflictB, b, []bool{true, false})}
 }
 
 func (w *txWorld) kind() string { return "tx" }
@@ -245,9 +286,10 @@ func (w *txWorld) buildHistory(rng *rand.Rand, n int) {
 	}
 	if n > 0 {
 		w.leasePrelude()
+		w.conflictPrelude()
 	}
 	for step := 0; step < n; step++ {
-		i := rng.Intn(len(w.txs))
+		i := rng.Intn(txUniverseSize) // the conflict triple is only touched by its prelude and by targets
 		t := w.txs[i]
 		switch r := rng.Intn(20); {
 		case r < 11: // insert (mined or not) + credits
@@ -389,6 +431,63 @@ func (w *txWorld) leasePrelude() {
 	})
 }
 
+// conflictPrelude: every non-empty history records the conflict triple: P mined (with its credit), then A and B,
+// both unconfirmed and both spending P:0, each with its change credit.  The random steps never pick these three
+// directly (a Rollback may still detach P's block), so "an outpoint with two unconfirmed spenders" is part of
+// almost every reached state.
+func (w *txWorld) conflictPrelude() {
+	if w.top < 1 {
+		w.top = 1
+	}
+	bm := blockMeta(w.top)
+	for _, i := range []int{txConflictParent, txConflictA, txConflictB} {
+		t := w.txs[i]
+		var b *wtxmgr.BlockMeta
+		if i == txConflictParent {
+			b = bm
+		}
+		_ = w.update(func(ns walletdb.ReadWriteBucket) error {
+			if err := w.store.InsertTx(ns, t.rec, b); err != nil {
+				return err
+			}
+			for j, o := range t.ours {
+				if o {
+					if err := w.store.AddCredit(ns, t.rec, b, uint32(j), i != txConflictParent); err != nil {
+						return err
+					}
+				}
+			}
+			return nil
+		})
+	}
+}
+
+// coSpenders: pairs (i, j), i < j, of universe transactions that are BOTH recorded as unconfirmed right now and
+// spend a common outpoint.
+func (w *txWorld) coSpenders() [][2]int {
+	var unmined []int
+	for i := range w.txs {
+		if bm, present := w.blockOf(i); present && bm == nil {
+			unmined = append(unmined, i)
+		}
+	}
+	var out [][2]int
+	for x, i := range unmined {
+		for _, j := range unmined[x+1:] {
+			shared := false
+			for _, a := range w.txs[i].rec.MsgTx.TxIn {
+				for _, b := range w.txs[j].rec.MsgTx.TxIn {
+					shared = shared || a.PreviousOutPoint == b.PreviousOutPoint
+				}
+			}
+			if shared {
+				out = append(out, [2]int{i, j})
+			}
+		}
+	}
+	return out
+}
+
 // lockedOutpoints: the outpoints ListLockedOutputs reports now.
 func (w *txWorld) lockedOutpoints() map[wire.OutPoint]bool {
 	m := map[wire.OutPoint]bool{}
@@ -495,6 +594,24 @@ func (w *txWorld) targets(rng *rand.Rand, tier string) []string {
 			out = append(out, d)
 		}
 		forced++
+	}
+	// always: remove one of two unconfirmed transactions that spend the same outpoint (the spender list of the
+	// shared outpoint is rewritten, not deleted: the Put branch of deleteRawUnminedInput), and - in every second
+	// state - confirm the other one (deleteUnminedTx rewrites the list, removeDoubleSpends removes the first)
+	addForced := func(d string) {
+		for _, x := range out {
+			if x == d {
+				return
+			}
+		}
+		out = append(out, d)
+	}
+	if cs := w.coSpenders(); len(cs) > 0 {
+		pr := cs[len(cs)-1]
+		addForced(fmt.Sprintf("RemoveUnminedTx/t:%d", pr[0]))
+		if w.seed%2 == 1 {
+			addForced(fmt.Sprintf("InsertTx/t:%d/h:%d", pr[1], w.top+1))
+		}
 	}
 	return out
 }
@@ -687,6 +804,84 @@ func (w *txWorld) observeStore(s *wtxmgr.Store) []string {
 }
 
 func (w *txWorld) observeRunning() []string { return w.observeStore(w.store) }
+
+// followUp continues the history after the target operation, fault-free, and reports what the queries answer on
+// the way: the unconfirmed transactions are removed one by one, leaves first (a transaction no other remaining
+// unconfirmed transaction spends from; ties by hash), with Balance / UnspentOutputs / UnminedTxHashes after every
+// removal.  A change the operation silently lost that no query shows yet (e.g. a stale spender list in the
+// unmined-inputs bucket) becomes visible here: the output it names never gets unspent again.
+// Run on the fault-free twin and on a faulted world whose operation reported success; mutates the world.
+func (w *txWorld) followUp() []string {
+	var out []string
+	for step := 0; step < 32; step++ {
+		var txs []*wire.MsgTx
+		if err := w.view(func(ns walletdb.ReadBucket) error {
+			var err error
+			txs, err = w.store.UnminedTxs(ns)
+			return err
+		}); err != nil {
+			return append(out, fmt.Sprintf("followup.step(%d).unminedtxs=err", step))
+		}
+		if len(txs) == 0 {
+			break
+		}
+		hashes := make([]chainhash.Hash, len(txs))
+		for i, m := range txs {
+			hashes[i] = m.TxHash()
+		}
+		var leaf *wire.MsgTx
+		var leafHash chainhash.Hash
+		for i, m := range txs {
+			spent := false
+			for j, o := range txs {
+				if i == j {
+					continue
+				}
+				for _, in := range o.TxIn {
+					spent = spent || in.PreviousOutPoint.Hash == hashes[i]
+				}
+			}
+			if !spent && (leaf == nil || hashes[i].String() < leafHash.String()) {
+				leaf, leafHash = m, hashes[i]
+			}
+		}
+		if leaf == nil {
+			leaf, leafHash = txs[0], hashes[0]
+		}
+		rec, err := wtxmgr.NewTxRecordFromMsgTx(leaf, t0)
+		if err != nil {
+			return append(out, fmt.Sprintf("followup.step(%d).record=err", step))
+		}
+		tag := fmt.Sprintf("followup.rm(%d:%s)", step, leafHash.String()[:8])
+		err = w.update(func(ns walletdb.ReadWriteBucket) error { return w.store.RemoveUnminedTx(ns, rec) })
+		out = append(out, fmt.Sprintf("%s.removed=%v", tag, err == nil))
+		if err != nil {
+			break
+		}
+		_ = w.view(func(ns walletdb.ReadBucket) error {
+			for _, mc := range []int32{0, 1} {
+				b, err := w.store.Balance(ns, mc, w.top+2)
+				out = append(out, fmt.Sprintf("%s.balance(%d)=%d/%v", tag, mc, int64(b), err != nil))
+			}
+			utx, err := w.store.UnspentOutputs(ns)
+			var l []string
+			for _, c := range utx {
+				l = append(l, fmt.Sprintf("%s:%d:%d@%d", c.Hash.String()[:8], c.Index, int64(c.Amount), c.Height))
+			}
+			sort.Strings(l)
+			out = append(out, fmt.Sprintf("%s.utxos=%s/%v", tag, strings.Join(l, ","), err != nil))
+			hs, err := w.store.UnminedTxHashes(ns)
+			l = nil
+			for _, h := range hs {
+				l = append(l, h.String()[:8])
+			}
+			sort.Strings(l)
+			out = append(out, fmt.Sprintf("%s.unmined=%s/%v", tag, strings.Join(l, ","), err != nil))
+			return nil
+		})
+	}
+	return out
+}
 
 func (w *txWorld) observeFresh() []string {
 	var s *wtxmgr.Store
